@@ -128,7 +128,7 @@ def gen_cases(ctx):
         if q:
             n = rng.choice([16, 16, 24, 32, 32, 48, 64, 17, 33, 21])
             # powers of two, round sizes and sizes with a large prime factor (FFT back-ends treat them differently)
-            g = rng.choice([64, 64, 128, 128, 256, 94, 118, 122, 134, 166, 202, 254, 100, 150])
+            g = rng.choice([64, 64, 128, 128, 256, 94, 118, 122, 134, 166, 202, 254, 100, 150, 97, 127, 65])
         else:
             n = rng.choice([16, 20, 24, 32, 32, 40, 48, 64, 64, 96, 128, 17, 33, 65, 21, 31, 41])
             g = rng.choice([64, 64, 128, 128, 128, 256, 256, 100, 200, 94, 118, 122, 134, 142, 158, 166, 178,
